@@ -50,7 +50,7 @@ BINOP_RAISES = {
     ast.Add: TE, ast.Sub: TE, ast.Mult: TE, ast.MatMult: TE,
     ast.Div: ("TypeError", "ZeroDivisionError"),
     ast.FloorDiv: ("TypeError", "ZeroDivisionError"),
-    ast.Mod: ("TypeError", "ZeroDivisionError", "ValueError"),
+    ast.Mod: ("TypeError", "ZeroDivisionError", "ValueError", "OverflowError"),   # str % x is formatting: '%c' % 1114112 -> OverflowError
     ast.Pow: ("TypeError", "ZeroDivisionError"),
     ast.LShift: ("TypeError", "ValueError"), ast.RShift: ("TypeError", "ValueError"),
     ast.BitOr: TE, ast.BitAnd: TE, ast.BitXor: TE,
@@ -71,7 +71,7 @@ OP_TABLE_DOC = [
     ("T in <list/tuple of clean values>, passing T unchanged", []),
     ("<, >, <=, >=, unary -/+/~, +, -, *, abs, len, range, sum, set/list/tuple/sorted/iter/zip/enumerate(T), for .. in T, x in T, T in <dict/set/str>, T(...), isinstance(x, T), hashing T", ["TypeError"]),
     ("/, //, **", ["TypeError", "ZeroDivisionError"]),
-    ("%", ["TypeError", "ZeroDivisionError", "ValueError"]),
+    ("% (includes str % x, i.e. printf-style formatting of an input string)", ["TypeError", "ZeroDivisionError", "ValueError", "OverflowError"]),
     ("int(T), float(T)", ["TypeError", "ValueError"]),
     ("int(T:str), float(T:str)", ["ValueError"]),
     ("int(x) for a float x derived from the input (float(T:str) may be inf / nan)", ["OverflowError", "ValueError"]),
@@ -84,6 +84,7 @@ OP_TABLE_DOC = [
     ("T:list[<const int>], T:tuple[<const int>] without a non-emptiness fact", ["IndexError"]),
     ("x[T] (x a library list/tuple)", ["TypeError", "IndexError"]),
     ("x[T] (x a library dict)", ["TypeError", "KeyError"]),
+    ("for .. in <iteration over T>: T[<not a key obtained from T>] = v   (T may be a mapping)", ["RuntimeError"]),
     ("next(T)", ["TypeError", "StopIteration"]),
     ("next(iter(T:container)) without default and without a non-emptiness fact", ["StopIteration"]),
 ]
